@@ -3,7 +3,7 @@
    is repeated; `strokes` (Path/Stroke.v) merges such repeats. *)
 From Coq Require Import List Bool ZArith QArith Qround Qabs.
 Import ListNotations.
-From Femto Require Import Base.Dedup Path.Stroke Path.Laser Path.Marker Path.MarkerProofs.
+From Femto Require Import Base.Dedup Path.Stroke Path.Laser Path.Marker Path.MarkerProofs Path.ClosedProofs Pgm.Ops Pgm.SafeProofs.
 Open Scope Q_scope.
 
 (* cross: exactly two strokes *)
@@ -86,6 +86,24 @@ Theorem C14_box : forall c x y z w h,
   copy_stroke [ (x, y, z); (x + Qabs w, y, z); (x + Qabs w, y + Qabs h, z); (x, y + Qabs h, z); (x, y, z) ].
 Proof. exact box_strokes. Qed.
 Print Assumptions C14_box.
+
+(* every figure ends with the shutter closed, and - flags being 0/1 - is a closed path for the compiler: the marker file of
+   any list of figures is a session of public operations, to which the C03 theorem applies (C08_writer_sessions_public) *)
+Theorem C14_figures_end_closed :
+  (forall c ctr a b, ends_closed ls (cross c ctr a b)) /\ (forall c ticks a b x_init, ends_closed ls (ruler c ticks a b x_init)) /\
+  (forall c p0 pf w delta alongx, ends_closed ls (meander c p0 pf w delta alongx)) /\
+  (forall c vs shift, ends_closed ls (ablation c vs shift)) /\ (forall c corner w h, ends_closed ls (box c corner w h)).
+Proof. exact (conj cross_closed (conj ruler_closed (conj meander_closed (conj ablation_closed box_closed)))). Qed.
+Print Assumptions C14_figures_end_closed.
+
+Theorem C14_figures_are_closed_paths :
+  (forall c ctr a b, closed_path (map to_pt (cross c ctr a b)) = true) /\
+  (forall c ticks a b x_init, closed_path (map to_pt (ruler c ticks a b x_init)) = true) /\
+  (forall c p0 pf w delta alongx, closed_path (map to_pt (meander c p0 pf w delta alongx)) = true) /\
+  (forall c vs shift, closed_path (map to_pt (ablation c vs shift)) = true) /\
+  (forall c corner w h, closed_path (map to_pt (box c corner w h)) = true).
+Proof. destruct builders_closed_paths as [A [B [C [D [E _]]]]]. exact (conj A (conj B (conj C (conj D E)))). Qed.
+Print Assumptions C14_figures_are_closed_paths.
 
 Example C14_example :
   let c := {| m_speed := 1; m_speed_pos := 5; m_speed_closed := 5; m_depth := 0 |} in
